@@ -5,7 +5,7 @@ RULE = ("random curves (polynomial/rational, scalar/vector, degree 0..3): (a) in
         "(b) removal of a knot of a generic curve (not removable): refused, or accepted within the tolerance bound, (c) explicit large "
         "tolerances, (d) tolerance=None (forced removal: interpolates at every remaining knot), (e) absent knots / end knots.  "
         "Non-trivial: degree >= 1; distinct = distinct (U,P,W,nodes,tolerance,mode)."
-        " Also: tolerances just below / above the measured cost of the removal (adaptive), dyadic knots with a float twin first, a rational curve whose refit needs a zero weight.")
+        " Also: tolerances just below / above the measured cost of the removal (adaptive), dyadic knots with a float twin first, a rational curve whose refit needs a zero weight; nodes as list / tuple / generator / iterator / map / ndarray; control points far from the origin with an almost removable knot.")
 EXPLANATION = ("L2: resulting state or refusal vs the model's least-squares removal (exact); L3: exactness via `rf.eq`, deviation via the exact "
                "integral of the squared difference of the span polynomials (`rf.sqdist`), interpolation by exact evaluation, atomicity by snapshot.")
 ASSUMPTIONS = ["weights positive", "deviation bound checked for polynomial curves (the rational integral is not a rational number)"]
@@ -178,6 +178,25 @@ def run(ctx):
         tol_ = f_ * max(dd[1]) / (2 * max(1, U[-1] - U[0]))
         ctx["rec"].count("adaptive-tolerance", "below" if f_ < 1 else "above")
         run_case(ctx, ser(dict(kind="remove", U=U, P=P, W=None, mode="tolerant", nodes=nodes, tol=tol_)))
+    for i in range(budget(ctx, 10, 120)):
+        # control points far from the origin (1e3 .. 1e6), a knot that is almost removable: one control point of a refined curve moved by
+        # 1/100 .. 1 — the (absolute) default tolerance must refuse the removal
+        U0, P0, _ = rand_curve(rng, pmax=3, nintmax=1, weights="none")
+        if kv_info(U0)[0] == 0:
+            continue
+        off = F(10 ** rng.randint(3, 6))
+        P0 = [tuple(x * rng.choice([1, 100]) + off for x in q) for q in P0]
+        kx = U0[0] + (U0[-1] - U0[0]) * rng.choice(GRID)
+        if kx in U0:
+            continue
+        m = ctx["drv"].call("curve.insert", *curve_args(U0, P0, None), [kx])
+        if m[0] != "ok":
+            continue
+        U1, P1, _ = model_curve_state(m[1])
+        P1 = [list(q) for q in P1]
+        j = max(1, min(len(P1) - 2, list(U1).index(kx) - 1))
+        P1[j][0] += F(1, rng.choice([1, 10, 100]))
+        run_case(ctx, ser(dict(kind="remove", U=list(U1), P=[tuple(q) for q in P1], W=None, mode="generic", nodes=[kx], tol="default")))
     for i in range(budget(ctx, 110, 1500)):
         mode = rng.choice(["roundtrip"] * 4 + ["generic", "generic", "tolerant", "forced", "absent", "endknot"])
         U, P, W = rand_curve(rng, pmax=3, nintmax=2, force_zero=(i % 7 == 0))
